@@ -20,7 +20,7 @@ func init() {
 
 const subSDL = `
 type Query { x: Int }
-type Subscription { listen(topic: String): Event must(topic: String): Event! batch(topic: String): [Event!]! many(topic: String): [Event] }
+type Subscription { listen(topic: String): Event must(topic: String): Event! batch(topic: String): [Event!]! many(topic: String): [Event] fail(topic: String): Event }
 type Event { id: ID n: Int tag: String inner: Inner list: [Int] }
 type Inner { v: Int w: String }
 `
@@ -179,6 +179,8 @@ type subSubscriptions struct{ r *subRootObj }
 func (s *subSubscriptions) Resolve(field *ggql.Field, args map[string]interface{}) (interface{}, error) {
 	switch field.Name {
 	case "listen", "must", "batch", "many":
+	case "fail":
+		return nil, fmt.Errorf("the application refuses this stream")
 	default:
 		return nil, fmt.Errorf("no field %s", field.Name)
 	}
@@ -260,6 +262,7 @@ func expectedMessage(ms *model.Schema, sels []model.Sel, e *subEvent) string {
 
 type subModelEntry struct {
 	h        *hSub
+	never    bool // made by a request that was answered with an error: never registered, never cleaned up
 	live     bool
 	expected int // deliveries expected so far (for fail plans)
 }
@@ -320,6 +323,14 @@ func runC19(c *run.Ctx) {
 					d.Frags = []*model.FragDef{{Name: "Second", Cond: "Subscription", Sels: []model.Sel{roots[1]}}}
 					roots[1] = &model.Spread{Name: "Second"}
 				}
+				refused := r.Intn(4) == 0
+				if refused {
+					// a third root field whose resolver fails: the request is answered with an error, so it subscribed nobody -
+					// the stream objects the other two resolvers made are the application's to drop
+					bad := &model.Field{Alias: "s3", Name: "fail", Args: []model.Arg{{Name: "topic", Value: "a"}}, Sels: []model.Sel{&model.Field{Name: "id"}}}
+					k := r.Intn(len(roots) + 1)
+					roots = append(roots[:k], append([]model.Sel{bad}, roots[k:]...)...)
+				}
 				d.Ops = []*model.Op{{Kind: "subscription", Name: "S", Sels: roots}}
 				text := d.Print(model.LayoutN(0))
 				ro.mu.Lock()
@@ -331,6 +342,18 @@ func runC19(c *run.Ctx) {
 				if pv != nil {
 					fail(fmt.Sprintf("subscribe panics: %v", pv))
 					bad = true
+					break
+				}
+				if refused {
+					if _, has := res["errors"]; !has {
+						fail("a subscription request with a failing root field returned no error")
+						bad = true
+						break
+					}
+					hist[len(hist)-1] += "  [answered with an error: nobody is subscribed]"
+					// the two subscribers keep their ids but are not part of the registry model: a publish must not reach them
+					entries = append(entries, &subModelEntry{h: hs[0], live: false, never: true}, &subModelEntry{h: hs[1], live: false, never: true})
+					c.Count("subscription_requests_answered_with_an_error", 1)
 					break
 				}
 				if es, has := res["errors"]; has {
@@ -535,6 +558,13 @@ func runC19(c *run.Ctx) {
 				if e.live && n != 0 {
 					fail(fmt.Sprintf("live subscriber %d was cleaned up", e.h.sid))
 					bad = true
+				}
+				if e.never {
+					if n != 0 {
+						fail(fmt.Sprintf("subscriber %d of a refused request was cleaned up", e.h.sid))
+						bad = true
+					}
+					continue
 				}
 				if !e.live && n != 1 {
 					fail(fmt.Sprintf("removed subscriber %d cleaned up %d times, expected exactly once", e.h.sid, n))
